@@ -13,6 +13,7 @@ import (
 	"encoding/json"
 	"errors"
 	"fmt"
+	"math"
 	"math/big"
 	"os"
 	"path/filepath"
@@ -667,6 +668,30 @@ func run(c *engine.Ctx, r *engine.Report) {
 			}
 		}
 	}
+	// lifetimes at the edge of the duration encoding (bootstrap only: the roots
+	// a successful call returns are valid now and well-formed)
+	if c.Shard == 0 {
+		for _, e := range [][2]time.Duration{{math.MaxInt64, 5 * time.Minute}, {math.MaxInt64 - time.Hour, 2 * time.Hour}, {math.MaxInt64 - 5*time.Minute, 5 * time.Minute}, {math.MaxInt64 / 2, math.MaxInt64 / 2}} {
+			st, _ := inmem.New(harness.Ctx)
+			now := base
+			vclock.Freeze(now)
+			ret, err := rotation.RotateRootCertificates(harness.Ctx, st, nodeenrollment.WithCertificateLifetime(e[0]), nodeenrollment.WithNotBeforeClockSkew(0), nodeenrollment.WithNotAfterClockSkew(e[1]))
+			r.Eval(1)
+			if err != nil {
+				r.Branch("extreme-lifetime:refused")
+				continue // refusing such a configuration is fine
+			}
+			for _, x := range []*types.RootCertificate{ret.Current, ret.Next} {
+				if x == nil || !x.NotBefore.AsTime().Before(x.NotAfter.AsTime()) {
+					r.Violate("extreme-lifetime:malformed-window", fmt.Sprintf("lifetime %v + not-after skew %v: a returned root is valid %v..%v", e[0], e[1], x.GetNotBefore().AsTime(), x.GetNotAfter().AsTime()), nil)
+				}
+			}
+			if cw := win(ret.Current); cw.nb.After(now) || cw.na.Before(now) {
+				r.Violate("extreme-lifetime:current-not-valid-now", fmt.Sprintf("lifetime %v + not-after skew %v: the call succeeded and returned a current root valid %v..%v, which does not contain now=%v", e[0], e[1], cw.nb, cw.na, now), nil)
+			}
+			r.Branch("extreme-lifetime:bootstrapped")
+		}
+	}
 	// histories: frozen-clock configurations, one per shard
 	var hc []config
 	for _, cfg := range cfgs {
@@ -718,7 +743,7 @@ func init() {
 	engine.Register(&engine.CheckDef{
 		ID:    "C08",
 		Level: "model_checking",
-		Rule: "A1: every weak ordering of {current.NotBefore, current.NotAfter, next.NotBefore, next.NotAfter, now} with well-formed windows (NotBefore < NotAfter; crafted, really self-signed roots; instants 1h apart and 1ns apart) plus empty storage, x lifetime {1ns,1h,14d} x not-before skew {0,-5m,-1h} x not-after skew {0,5m,1h} x reinitialize x clock {frozen, ticking} on inmem (+2 file configurations); A2: BFS over {rotate, rotate+reinit, advance by 1/4,1/2,3/4,1,2 spans} from empty storage (quick depth 5, thorough 7) per frozen-clock configuration; oracle = the property's decision table (ties may go either way) and exact minted windows; " +
+		Rule: "A1: every weak ordering of {current.NotBefore, current.NotAfter, next.NotBefore, next.NotAfter, now} with well-formed windows (NotBefore < NotAfter; crafted, really self-signed roots; instants 1h apart and 1ns apart) plus empty storage, x lifetime {1ns,1h,14d} x not-before skew {0,-5m,-1h} x not-after skew {0,5m,1h} x reinitialize x clock {frozen, ticking} on inmem (+2 file configurations); A2: BFS over {rotate, rotate+reinit, advance by 1/4,1/2,3/4,1,2 spans} from empty storage (quick depth 5, thorough 7) per frozen-clock configuration; every A1 case again with the stored roots unreadable, with reinitialization under skip-storage, and with the labels of what a wrapper / skip-storage call returns; bootstrap calls with lifetime + not-after skew at and beyond the int64 limit of the duration type; oracle = the property's decision table (ties may go either way) and exact minted windows; " +
 			"states/transitions are those of A2; distinct_nontrivial counts A1 cases (distinct by construction)",
 		Assumptions: []string{"exact ties between now and a stored instant may be decided either way (the property is silent)", "windows with NotBefore >= NotAfter are not enumerated: the code can never have stored them", "a 1ns lifetime is used only with non-zero skews (below 2ns of lifetime+skew the half-life shift truncates to zero)"},
 		Shards:      func(c *engine.Ctx) int { return 16 },
